@@ -1,0 +1,5 @@
+//go:build !verif
+
+package ctpolicy
+
+func simSession(*LogGroupInfo) []string { return nil }
